@@ -211,3 +211,23 @@ def floatops(t):
 
 RULES['calltrace'] = calltrace
 RULES['floatops'] = floatops
+
+
+def point_lambda(t):
+    """R17/R11: body of the transform lambda `VFL<<expr>>`: the lambda parameter pt2 is the pattern element,
+    Point + Point / Point - Point become calls to the extracted operator bodies."""
+    n = 0
+    def repl(m):
+        nonlocal n
+        e = m.group(1).strip()
+        e = re.sub(r'\bpt2\b', 'pattern.data[vf_t]', e)
+        mm = re.match(r'^(\(?[\w.\[\]]+\)?)\s*([+-])\s*(\(?[\w.\[\]]+\)?)$', e)
+        if not mm:
+            return m.group(0)
+        n += 1
+        return 'Point64_%s(%s, %s)' % ('add' if mm.group(2) == '+' else 'sub', mm.group(1), mm.group(3))
+    t = re.sub(r'VFL<<(.*?)>>', repl, t)
+    return t, n
+
+
+RULES['point_lambda'] = point_lambda
